@@ -332,4 +332,78 @@ example : HardFree ['a', 'b', ' ', 'c', '-', 'd', 'é', '字'] := by
   simp only [List.mem_cons, List.mem_nil_iff, or_false] at hc
   rcases hc with rfl | rfl | rfl | rfl | rfl | rfl | rfl | rfl <;> decide +kernel
 
+/-- the opportunities the Unicode separator actually uses, when the environment runs the model's
+    own `linebreaks` (any tables satisfying LB2): strictly increasing, positive, each strictly
+    inside the stripped text on a char boundary — the hypotheses of the boundary theorems -/
+-- @audit TW.C11.usedOpps_own
+theorem usedOpps_own (env : Env) (T : LbTables) (henv : env.opps = ownOpps T) (hT : NoBreakAtSot T)
+    (line : Text) (os : List Nat)
+    (h : usedOpps (stripAnsi line) (env.opps (stripAnsi line)) = some os) :
+    os.Pairwise (· < ·) ∧ (∀ o ∈ os, 0 < o) ∧
+      ∀ o ∈ os, ∃ p d q, stripAnsi line = p ++ d :: q ∧ blen p = o := by
+  obtain ⟨hos, _⟩ := usedOpps_spec _ _ _ h
+  rw [henv] at hos
+  have hsub : ∀ o ∈ os, o ∈ ownOpps T (stripAnsi line) ∧ o < blen (stripAnsi line) := by
+    intro o ho
+    rw [hos] at ho
+    have h1 := (List.mem_filter.mp ho).1
+    have h2 := List.mem_filter.mp h1
+    exact ⟨h2.1, by simpa using h2.2⟩
+  refine ⟨?_, fun o ho => ownOpps_pos T hT _ o (hsub o ho).1, ?_⟩
+  · rw [hos]
+    exact ((ownOpps_pairwise T _).filter _).filter _
+  · intro o ho
+    obtain ⟨hm, hlt⟩ := hsub o ho
+    obtain ⟨l, r, hs, hb⟩ := ownOpps_boundary T _ o hm
+    cases r with
+    | nil =>
+      exfalso
+      rw [hs, List.append_nil] at hlt
+      omega
+    | cons d q => exact ⟨l, d, q, hs, hb⟩
+
+
+/-- the statement of `unicode_separator_ownlb`: **the Unicode separator, with the opportunity routine inside the model — every clause of the
+    property at once, no hypothesis about an external crate.** For every non-empty line the
+    separator returns words which concatenate to the line, are well-formed (`WordOk`: whitespace =
+    trailing spaces, cached width = display width, no penalty), are one more than the used
+    opportunities (those before the end whose preceding character is neither `-` nor SHY), and
+    every boundary between two words is reached in skipper state `normal`, is the corresponding
+    used opportunity of the stripped text, sits directly after a visible character, and no used
+    opportunity lies strictly inside a word. -/
+def UnicodeSepSpec (env : Env) (T : LbTables) (line : Text) : Prop :=
+    ∃ ws os, findWordsUnicode env line = some ws ∧
+      usedOpps (stripAnsi line) (ownOpps T (stripAnsi line)) = some os ∧
+      (ws.map Word.text).flatten = line ∧ (∀ w ∈ ws, WordOk env.cw w) ∧
+      ws.length = os.length + 1 ∧
+      ∀ pre p post, uniPieces os line = pre ++ p :: post →
+        (∀ o ∈ os, o ≤ blen (stripAnsi pre.flatten) ∨ blen (stripAnsi (pre.flatten ++ p)) ≤ o) ∧
+        (pre ≠ [] →
+          Ansi.run .normal pre.flatten = .normal ∧
+          os[pre.length - 1]? = some (blen (stripAnsi pre.flatten)) ∧
+          ∃ t d, pre.flatten = t ++ [d] ∧ ((Ansi.run .normal t).step d).2 = true)
+
+-- @audit TW.C11.unicode_separator_ownlb
+theorem unicode_separator_ownlb (env : Env) (T : LbTables) (henv : env.opps = ownOpps T) (hT : NoBreakAtSot T)
+    (line : Text) (hline : line ≠ []) : UnicodeSepSpec env T line := by
+  unfold UnicodeSepSpec
+  obtain ⟨ws, hws⟩ := findWordsUnicode_total_ownlb env T henv line
+  obtain ⟨os, hos, hwsd⟩ := unicode_eq env line ws hws
+  obtain ⟨hinc, hpos, hb⟩ := usedOpps_own env T henv hT line os hos
+  refine ⟨ws, os, hws, by rw [← henv]; exact hos, unicode_lossless env line ws hws,
+    unicode_words_ok env line ws hws, ?_, ?_⟩
+  · rw [hwsd, List.length_map]
+    exact unicode_boundaries_complete os line hline hinc hb
+  · intro pre p post h
+    refine ⟨unicode_no_inner_opportunity os line hline hinc hb pre p post h, fun hpre => ?_⟩
+    obtain ⟨h1, h2⟩ := unicode_boundaries_sound os line pre p post h hpre
+    exact ⟨h1, h2, unicode_boundary_first_entry os line hinc hpos pre p post h hpre⟩
+
+/-- … for the tables the crate was compiled with (LB2 checked by the kernel on the table) -/
+-- @audit TW.C11.unicode_separator_own
+theorem unicode_separator_own (env : Env) (henv : env.opps = ownOpps lbTables) (line : Text) (hline : line ≠ []) :
+    UnicodeSepSpec env lbTables line :=
+  unicode_separator_ownlb env lbTables henv lbTables_noBreakAtSot line hline
+
+
 end TW.C11
